@@ -126,17 +126,18 @@ src: mokapot/peps.py:240-248 -/
 def kdeNnlsOf (es d : List Rat) (scores : List Rat) : List Rat :=
   scores.map (fun x => clip 0 1 (interp (es.zip (revCumsum d)) x))
 
-/-- `if scale_to_one and pep_est[0] < 1: pep_est = pep_est / pep_est[0]`.
-src: mokapot/peps.py:390-391 -/
+/-- `if scale_to_one and 0 < pep_est[0] < 1: pep_est = pep_est / pep_est[0]` (the repaired
+code, commit 835a908: an all-zero fit is left unscaled; before, `pep_est[0] < 1` alone made it
+`0/0` — refuted variant `Mutants.scaleToOneOld`).  src: mokapot/peps.py:410-413 -/
 def scaleToOne (p : List Rat) : List Rat :=
-  if p.headD 0 < 1 then p.map (fun y => y / p.headD 0) else p
+  if 0 < p.headD 0 ∧ p.headD 0 < 1 then p.map (fun y => y / p.headD 0) else p
 
 /-- `peps_from_scores_hist_nnls` given the bin midpoints `es` and the NNLS
-solution `d`.  `pep_est[0] = 0` makes the code compute `0/0` (NaN for every
-PSM): the model answers `none` there.  src: mokapot/peps.py:378-397 -/
+solution `d`.  Since the repair there is always a result (the type stays `Option`:
+the callers and the driver were written for the old code, where `pep_est[0] = 0` gave NaN
+for every PSM — `Mutants.histNnlsOfOld`).  src: mokapot/peps.py:380-418 -/
 def histNnlsOf (es d : List Rat) (scores : List Rat) : Option (List Rat) :=
-  if (revCumsum d).headD 0 = 0 then none
-  else some (scores.map (fun x => clip 0 1 (interp (es.zip (scaleToOne (revCumsum d))) x)))
+  some (scores.map (fun x => clip 0 1 (interp (es.zip (scaleToOne (revCumsum d))) x)))
 
 /-! ## q-values from PEPs (qvalues.py:217-267) -/
 
